@@ -7,12 +7,52 @@ BASE = "cd /repo && /venv/bin/python -m pytest -ra -q -p no:cacheprovider --time
 CLAIMS = {
   "C01": ("exploration", "5/C01",
           "Seeded search over schedules and fault sequences: the real Tuner loop runs against scripted concurrent workers under a virtual clock; occupancy, id sequence, the per-trial life-cycle automaton and the scheduler-notification grammar are checked over the recorded history of every run.",
-          "Trusts the harness's worker ground truth (w.start/w.exit/w.killed events) and the instance-level probes around scheduler/back-end methods; W-MEM status logic mirrors LocalBackend; documented over-budget exception for asynchronously stopping back-ends with start_jobs_without_delay=True is honoured.",
+          "Trusts the harness's worker ground truth (w.start/w.exit/w.killed events) and the instance-level probes around scheduler/back-end methods; W-MEM status logic mirrors LocalBackend; documented over-budget exception for asynchronously stopping back-ends with start_jobs_without_delay=True is honoured; KF1/KF3 suppressed by exact match.",
           "deterministic simulation: seeded schedule/fault search, history automaton oracle"),
   "C02": ("exploration", "5/C02",
           "Seeded search over batchings of worker output between polls (bursts, latency inside scheduler calls, completion before/with/after the last result, pause/resume in the same iteration): delivered results are matched to ground-truth reports by unique serial and checked for prefix/order/no-duplicate/nothing-after-decision/first-after-resume and against the results log.",
           "Trusts the serial number the scripted job adds to each report and the probes; known findings KF1/KF2 are suppressed by exact match and truncate their runs.",
           "deterministic simulation: seeded schedule search, exactly-once/ordering oracle over recorded history"),
+  "C03": ("exploration", "5/C03",
+          "Every on_trial_result decision of stopping-type Hyperband (and RUSH stopping) in simulated runs with concurrent, reordered and failing workers is compared with an independent reference model (documented rung levels, numpy.quantile, round-off band).",
+          "Trusts numpy.quantile and one state tap (the bracket sampled for each trial, read from the bracket manager after on_trial_add).",
+          "deterministic simulation + executable reference model compared step by step"),
+  "C04": ("exploration", "5/C04",
+          "A non-deterministic acceptor for promotion ASHA / PASHA / cost-aware / RUSH promotion is fed the real event stream of simulated runs: pause exactly at the milestone, never beyond max resource or the PASHA cap, promotions only of eligible unpromoted best trials from the highest eligible rung, next level told, new trial only if nothing is eligible.",
+          "Trusts numpy.quantile, the sampled-bracket tap and the PASHA cap tap; metric ties and the round-off band are accepted either way; RUSH promotion thresholds are not judged; dyhpo not covered.",
+          "deterministic simulation + non-deterministic acceptor (refinement check) on recorded history"),
+  "C05": ("exploration", "5/C05",
+          "Acceptor for the documented synchronous bracket policy fed the event stream of simulated runs with several open brackets, arbitrary result order and failing jobs: rung filling, exact top-k promotion with failed-last, levels, decisions, bracket cycling; geometric rung systems re-derived from the documented formula. DEHB: decision legality and suggest-never-raises only.",
+          "Trusts the bracket_rungs property for custom systems; ties at the cut are accepted either way; DEHB internals not modelled.",
+          "deterministic simulation + acceptor on recorded history"),
+  "C06": ("exploration", "5/C06",
+          "Invariant on every suggest of every simulated run (histories with pending, failed and observed trials produced by real schedules and faults): keys/constants/type/membership by independent domain code, initial points first by an independent mid-point rule, no repeats for no-repeat searchers, exhaustion only when the (effective) finite space or the documented grid is used up.",
+          "The for-all-config-space half is only sampled (spaces are redrawn per run); quantised domains are judged by bounds and type only; log-scaled integer grids are not judged for grid search.",
+          "deterministic simulation: invariant checked at every suggest over generated histories"),
+  "C12": ("exploration", "5/C12",
+          "Simulated runs over every StoppingCriterion field and pairs, wait/async/start-without-delay options, failures beyond max_failures, jobs exiting without report, exceptions thrown into the loop: loop ends at the first loop end where the criterion holds, no start after, bounded overshoot, nothing alive afterwards, stop_all called, results stored, counters consistent, only documented exceptions.",
+          "'Left running' is judged on W-MEM/W-LOCAL worker ground truth; for exceptions injected between start_trial and the status update the started-counter may lag by that one trial.",
+          "deterministic simulation with injected exceptions/failures; termination and post-condition oracle"),
+  "C13": ("exploration", "5/C13",
+          "Fault sequences (crash before first report / between reports / after resume, external stop, 1-3 per run, max_failures 0-6) against every scheduler: one error notification per observed failure, no exception below the limit, no scheduler call raising or hanging (wall-clock watchdog), failed trial not resumed / config not re-suggested, limit error names a failed trial, bounded progress; plus the C01/C03/C04/C05/C14 oracles after the first failure.",
+          "Hang detection uses a 12 s (90 s for GP) real-time watchdog per scheduler call; KF3/KF5 suppressed by exact match.",
+          "deterministic simulation with fault injection; containment oracle + reused reference models"),
+  "C14": ("exploration", "5/C14",
+          "After every scheduler call in simulated runs of stopping/promotion/synchronous Hyperband with GP, HyperTune and DyHPO searchers (all data policies, myopic pending, no-checkpoint re-reports, failures) the surrogate data set (searcher.state_transformer.state) is compared with what was delivered: one observation per level with the mapped value, levels by policy, pending entries only of live trials at unobserved levels, clean-up at every trial end without collateral loss.",
+          "Reads the documented attribute state_transformer.state (for DyHPO through the wrapped internal searcher); GP budgets tiny; level-presence rule not applied to synchronous Hyperband and DyHPO.",
+          "deterministic simulation: state invariant after every event"),
+  "C17": ("exploration", "5/C17",
+          "For every simulated run (extra string/NaN/int metrics, resumed trials with changed configs, every results_update_interval, injected exceptions) the results table, its CSV read-back, Tuner.best_config, load_experiment().best_config and the running statistics are recomputed from what the back-end handed to the loop.",
+          "When run() ended by exception the batch that was being processed counts as in flight (accepted as counted or not).",
+          "deterministic simulation: log/read-back/recomputation oracle over recorded history"),
+  "C19": ("exploration", "5/C19",
+          "MOASHA decisions in simulated runs (2-4 objectives, per-metric modes, ties, three priorities, brackets 1-3, any report order) are compared with brute-force Pareto-layer rank bounds; on every rung content reached pareto_efficient is compared with the brute-force mask and nondominated_sort with the layer order.",
+          "The pure Pareto functions are only sampled on rung contents reached; bracket of each trial is a state tap (MOASHA draws it from the global generator).",
+          "deterministic simulation + brute-force reference"),
+  "C20": ("exploration", "5/C20",
+          "Checkpoint-store model over simulated runs of promotion Hyperband, PASHA, synchronous Hyperband, DEHB and PBT with delete_checkpoints and early removal on/off: every delete justified, paused trials keep their checkpoint unless speculative removal was requested, checkpoint present at every resume and clone.",
+          "W-MEM in-memory store; KF4 (PBT clone source deleted) suppressed by exact match.",
+          "deterministic simulation: resource-lifetime model checked on recorded history"),
 }
 NA = [
   ("C07", "pure function of its input (domain membership, encode/decode round trip): no schedule, clock, fault, stream or second party for a simulator to own; exercised only incidentally"),
